@@ -64,3 +64,13 @@ package client
 //@   ensures sessionId: int(payPlain(ret, sharedSecret, 37))*16777216 + int(payPlain(ret, sharedSecret, 38))*65536 + int(payPlain(ret, sharedSecret, 39))*256 + int(payPlain(ret, sharedSecret, 40)) == int(authInfo.SessionId)
 //@   ensures orderedFlag: (payPlain(ret, sharedSecret, 41) % 2 == 1) == authInfo.Unordered
 //@   flag noframe
+
+// ssvToJson (C20, option-string syntax): the string processing itself is beyond the verifier's string
+// theory; what is stated are the structural facts the documented syntax relies on: each of the three
+// escapes is replaced at EVERY occurrence, an option is split into key and value at the FIRST '=' only,
+// and the closing brace replaces the last comma of a non-empty result.
+//@ func ssvToJson
+//@   atcall Replace requires everyOccurrence: arg3.(int) == -1
+//@   atcall SplitN requires keyAndValueOnly: arg2.(int) == 2
+//@   flag noframe
+//@   loop 0 invariant nonEmpty: len(ret) >= 1
